@@ -445,7 +445,10 @@ def run_routine(ctx, case):
             elif kind == "Identity":
                 A, alg = B.build({"k": "Identity", "n": n, "dt": dt}), L.Auto()
             elif kind == "Diagonal":
-                A, alg = B.build({"k": "Diagonal", "n": n, "dt": dt, "vals": [float(x) for x in rng.permutation(n) + 1.0]}), L.Auto()
+                vals = [float(x) for x in (rng.permutation(n) + 1.0) * rng.choice([-1.0, 1.0], size=n)]
+                if rng.random() < 0.3:
+                    vals[int(rng.integers(0, n))] = 0.0
+                A, alg = B.build({"k": "Diagonal", "n": n, "dt": dt, "vals": vals}), L.Auto()
             else:
                 A = B.build({"k": "Triangular", "n": n, "dt": dt, "seed": S.seed(rng), "lower": False,
                              "diag": [float(x) for x in rng.permutation(n) + 1.0]})
@@ -462,6 +465,16 @@ def run_routine(ctx, case):
             full = rng.random() < 0.5
             k = min(m, n) if full else int(rng.integers(1, min(m, n) + 1))
             alg = S.pick(rng, [DenseSVD(), L.Lanczos(max_iters=max(m, n) + 2, tol=1e-12), L.Auto()])
+            if rng.random() < 0.3:
+                # structural rules: Diagonal with negative / complex / exactly zero / unsorted entries, Identity
+                m = n
+                if rng.random() < 0.8:
+                    pool = [2.0, -1.5, 0.0, 3.0, -0.5, 1.0, 0.0] + ([{"re": 0.0, "im": 2.0}, {"re": 1.0, "im": -1.0}] if dt in P.CPLX else [])
+                    A = B.build({"k": "Diagonal", "n": n, "dt": dt, "vals": [pool[int(j)] for j in rng.integers(0, len(pool), size=n)]})
+                else:
+                    A = B.build({"k": "Identity", "n": n, "dt": dt})
+                k = n if full else int(rng.integers(1, n + 1))
+                alg = S.pick(rng, [L.Auto(), DenseSVD()])
             out = ctx.call(svd, A, k, "LM", alg)
             if not is_err(out):
                 shp = "tall" if m > n else ("wide" if m < n else "square")
